@@ -166,7 +166,7 @@ func (x *explorer) runFamily(f family) {
 	atomic.AddInt64(&x.bigNT, nt)
 }
 
-func (x *explorer) runDocs(name string, n int64, at func(i int64, buf []int) (doc []byte, tokens []string), defaultsUpTo int) {
+func (x *explorer) runDocs(name string, n int64, at func(i int64, buf []int) (doc []byte, tokens []string), defaultsUpTo, allLoadersUpTo int) {
 	r := x.r
 	defer trace(name, n, time.Now())
 	r.Bound("documents:"+name, n)
@@ -188,10 +188,20 @@ func (x *explorer) runDocs(name string, n int64, at func(i int64, buf []int) (do
 				x.report(c, []finding{*f})
 			}
 		}
-		for _, ld := range loaders {
-			for m := 0; m < 4; m++ {
-				try(docCase{Loader: ld, SN: m&1 != 0, EI: m&2 != 0})
+		if toks == nil || len(toks) <= allLoadersUpTo {
+			for _, ld := range loaders {
+				for m := 0; m < 4; m++ {
+					try(docCase{Loader: ld, SN: m&1 != 0, EI: m&2 != 0})
+				}
 			}
+		} else {
+			// the longest sequences: all four modes through load-string, and one
+			// mode each through the two loaders that wrap the same decoder
+			for m := 0; m < 4; m++ {
+				try(docCase{Loader: "string", SN: m&1 != 0, EI: m&2 != 0})
+			}
+			try(docCase{Loader: "bytes", EI: true})
+			try(docCase{Loader: "message"})
 		}
 		if toks != nil && len(toks) <= defaultsUpTo {
 			for m := 0; m < 4; m++ {
@@ -228,7 +238,7 @@ func run(r *core.Run) {
 		"json:dump-string (twice), dump-bytes, dump-message/message-bytes (each also with :string-numbers, and under the json:use-string-numbers default) and back through " +
 		"load-string {default, :exact-integers, :string-numbers}, load-bytes, load-message and equal?. " +
 		"D: every token sequence of length <= L over the 31-token document alphabet (concatenated without separators) and every byte string of length <= 2, " +
-		"through load-string, load-bytes, load-message x the four (:string-numbers, :exact-integers) keyword combinations, plus load-string under the four json:use-* default combinations for the shorter sequences. " +
+		"through load-string, load-bytes, load-message x the four (:string-numbers, :exact-integers) keyword combinations (sequences of 5 tokens, thorough only: load-string x 4 modes, load-bytes :exact-integers, load-message default), plus load-string under the four json:use-* default combinations for the shorter sequences. " +
 		"Non-trivial value = a container, a float, an int beyond 2^53 or a string needing an escape/non-ASCII (distinct by rendering); non-trivial document = the reference recogniser accepts it (distinct by bytes). " +
 		"states = enumerated terms (values + token sequences + byte strings; distinct token sequences may concatenate to the same bytes), transitions = json:* calls compared with the reference.")
 	r.Assume("oracle = own RFC 8259 recogniser/decoder (no encoding/json, no strconv float parsing, no unicode/utf8); a number means the float64 nearest to its exact decimal value (math/big, ties to even), -0 keeps its sign")
@@ -354,6 +364,7 @@ func run(r *core.Run) {
 	r.Bound("doc_max_tokens", L)
 	r.Bound("doc_use_defaults_max_tokens", dl)
 	r.Bound("doc_modes", 4)
+	r.Bound("doc_all_loaders_x_modes_max_tokens", 4)
 	r.Bound("doc_loaders", strings.Join(loaders, ","))
 	x.runDocs("bytes<=2", 1+256+65536, func(i int64, _ []int) ([]byte, []string) {
 		switch {
@@ -364,7 +375,7 @@ func run(r *core.Run) {
 		}
 		i -= 257
 		return []byte{byte(i >> 8), byte(i)}, nil
-	}, 0)
+	}, 0, 0)
 	ds := newSeqSpace(len(docTokens), L)
 	x.runDocs("token-sequences", ds.total, func(i int64, buf []int) ([]byte, []string) {
 		idx := ds.at(i, buf)
@@ -375,7 +386,7 @@ func run(r *core.Run) {
 			doc = append(doc, docTokens[t]...)
 		}
 		return doc, toks
-	}, dl)
+	}, dl, 4)
 
 	// ----- outcome classes (exact counts)
 	var keys []string
